@@ -151,23 +151,30 @@ def run_cli(args: List[str], timeout: int = 600, cwd: Optional[str] = None) -> T
 
 
 _sequential_installed = False
+_MAP_NAMES = ("p_imap", "p_uimap", "p_map", "p_umap")
 
 
 def install_sequential_map():
-    """in-process runs: rebind the coordinator's p_imap to a sequential map (a rebinding in the harness process,
-    not in /repo); the real pool is used by run_cli and by run_inprocess(real_pool=True)"""
+    """in-process runs: rebind whatever p_tqdm map function the coordinator imported to a sequential map (a rebinding
+    in the harness process, not in /repo; a sequential map is one admissible schedule of any of them); the real pool
+    is used by run_cli and by run_inprocess(real_pool=True)"""
     global _sequential_installed
     import src.workflow_coordinator as wc
     if not _sequential_installed:
-        wc._verif_real_p_imap = wc.p_imap
+        wc._verif_real_maps = {n: getattr(wc, n) for n in _MAP_NAMES if hasattr(wc, n)}
         _sequential_installed = True
-    wc.p_imap = lambda f, it, **kw: map(f, it)
+    for n in wc._verif_real_maps:
+        if n in ("p_map", "p_umap"):
+            setattr(wc, n, lambda f, it, **kw: list(map(f, it)))
+        else:
+            setattr(wc, n, lambda f, it, **kw: map(f, it))
 
 
 def restore_real_pool():
     import src.workflow_coordinator as wc
     if _sequential_installed:
-        wc.p_imap = wc._verif_real_p_imap
+        for n, fn in wc._verif_real_maps.items():
+            setattr(wc, n, fn)
 
 
 class SingleModeArgs:
